@@ -17,8 +17,8 @@
 ; NamesExtractor had no case for trajectory operators (UsertypeFluentsRemover._get_names_in_problem)
 (compile utf (problem p (types (T _) (S T)) (objects (t1 T) (s1 S)) (fluents ((xq (int -2 3) ((user T))) (i 0))) (init) (actions) (goals) (traj (always (forall ((k (user S))) (le (fl (xq (int -2 3) ((user T))) (v k (user S))) (i 2))))) (metrics)))
 ; the fake goal fluent of the disjunctive-conditions remover next to an object of that name
-(compile disj (problem p (types (T _)) (objects (disjunctive_conditions_remover_fake_goal T)) (fluents ((q bool ()) (b F)) ((r bool ()) (b F))) (init) (actions (action a () (pre (or (fl (q bool ())) (not (fl (r bool ()))))) (effs (eff assign (fl (q bool ())) (b T) (b T) ())))) (goals (or (fl (q bool ())) (fl (r bool ())))) (traj) (metrics)))
-(compile disj (problem p (types) (objects) (fluents ((q bool ()) (b F)) ((r bool ()) (b F))) (init) (actions (action disjunctive_conditions_remover_fake_action () (pre) (effs (eff assign (fl (q bool ())) (b T) (b T) ())))) (goals (or (fl (q bool ())) (fl (r bool ())))) (traj) (metrics)))
+(compile disj (problem p (types (T _)) (objects (dcrm_fake_goal T)) (fluents ((q bool ()) (b F)) ((r bool ()) (b F))) (init) (actions (action a () (pre (or (fl (q bool ())) (not (fl (r bool ()))))) (effs (eff assign (fl (q bool ())) (b T) (b T) ())))) (goals (or (fl (q bool ())) (fl (r bool ())))) (traj) (metrics)))
+(compile disj (problem p (types) (objects) (fluents ((q bool ()) (b F)) ((r bool ()) (b F))) (init) (actions (action dcrm_fake_action () (pre) (effs (eff assign (fl (q bool ())) (b T) (b T) ())))) (goals (or (fl (q bool ())) (fl (r bool ())))) (traj) (metrics)))
 ; the two temporal compilers on the durative reading: lock fluents of d2p next to a fluent named like one
 (compile d2p (problem p (types) (objects) (fluents ((q bool ()) (b F)) ((q_read_lock bool ()) (b F)) ((alive bool ()) (b F)) ((gc bool ()) (b F))) (init) (actions (action a () (pre (fl (q_read_lock bool ()))) (effs (eff assign (fl (q bool ())) (b T) (b T) ())))) (goals (fl (q bool ()))) (traj) (metrics)))
 (compile t2s (problem p (types (T _)) (objects (o T)) (fluents ((q bool ((user T))) (b F))) (init) (actions (action a ((y (user T))) (pre) (effs (eff assign (fl (q bool ((user T))) (p y (user T))) (b T) (b T) ())))) (goals (fl (q bool ((user T))) (o o T))) (traj) (metrics)))
